@@ -152,6 +152,17 @@ static void gen_wait(int tier)
 			}
 		}
 	}
+	/* kill a child and drop its interest in the same callback, while another thread does the reaping */
+	if (nloops >= 2 && nw > 0 && P(35)) {
+		int w = waits[R(nw)], owner = G->obj[w].owner, tm = gx_add_obj(K_TIMER, owner), y = R(3);
+		if (tm >= 0 && G->obj[w].p[0] == 0) {
+			gx_add_op(CTX_SETUP, owner, 0, OP_REG, tm, 0, gx_delta(), 0);
+			gx_add_op(CTX_CB, tm, 1, OP_WKILL, w, P(70) ? SIGKILL : SIGTERM, 0, 0);
+			while (y-- > 0)
+				gx_add_op(CTX_CB, tm, 1, OP_YIELD, 0, 0, 0, 0);
+			gx_add_op(CTX_CB, tm, 1, OP_UNREG, w, 0, 0, 0);
+		}
+	}
 	/* several statuses of one child queued for its interest before the owner runs (another thread
 	 * reaps), while the handler unregisters a sibling interest on the first of them */
 	if (nloops >= 2 && ndrv && P(40)) {
